@@ -25,8 +25,21 @@ def _binding(data: bytes) -> t.Optional[tuple]:
         if not m:
             return None
         sid = (int(m.group(1)), int(m.group(2)), tuple(int(x) for x in m.group(3)[1:].split("-")))
-        nonce = bytes(k.key_info) if not k.is_public_key else None
-        return (sid, str(k.root_key_identifier), int(k.l0), int(k.l1), int(k.l2), bool(k.is_public_key), nonce)
+        ki = bytes(k.key_info)
+        if not k.is_public_key:
+            kb: t.Any = ki                   # the key-identifier nonce is the KDF context
+        else:
+            # ephemeral public key (MS-GKDI 2.2.3): the modulus and the public value of an FFC DH key, both coordinates of an
+            # ECDH key, and the field width decide the shared secret; the generator g of the DH key blob does not (it is not
+            # used when decrypting), so a change there may legitimately be accepted
+            magic, kl = ki[:4], int.from_bytes(ki[4:8], "little")
+            if magic == b"DHPB" and len(ki) == 8 + 3 * kl:
+                kb = ("DH", kl, int.from_bytes(ki[8 : 8 + kl], "big"), int.from_bytes(ki[8 + 2 * kl : 8 + 3 * kl], "big"))
+            elif magic[:3] == b"ECK" and len(ki) == 8 + 2 * kl:
+                kb = (magic, kl, int.from_bytes(ki[8 : 8 + kl], "big"), int.from_bytes(ki[8 + kl :], "big"))
+            else:
+                return None
+        return (sid, str(k.root_key_identifier), int(k.l0), int(k.l1), int(k.l2), bool(k.is_public_key), kb)
     except Exception:  # noqa
         return None
 
